@@ -1,26 +1,155 @@
-"""./check --selftest : validates the reference models against third parties (DESIGN.md section 3)."""
+"""./check --selftest : validates the reference models against third parties (DESIGN.md section 3).
+
+A failure here is a harness error (exit 2), never a verdict about cm-colors.
+"""
+import json
+import math
+import os
+import subprocess
 import sys
+
+HOME = os.path.dirname(os.path.dirname(os.path.abspath(__file__)))
+
+
+def st_wcag(fail):
+    from mc.oracle import wcag
+
+    if abs(wcag.ratio((0x76,) * 3, (255,) * 3) - 4.5422) > 1e-3:
+        fail("wcag: #767676 on white should be 4.54")
+    if abs(wcag.ratio((0, 0, 0), (255, 255, 255)) - 21.0) > 1e-12:
+        fail("wcag: black on white should be 21")
+    if not wcag.ratio((0x77,) * 3, (255,) * 3) < 4.5:
+        fail("wcag: #777 on white is below 4.5")
+    if wcag.minimum(True, True) != 4.5 or wcag.minimum(False, True) != 7.0 or wcag.minimum(True, False) != 3.0 or wcag.minimum(False, False) != 4.5:
+        fail("wcag: minimum table")
+
+
+def st_css_color(fail):
+    import tinycss2.color3 as c3
+    from mc.lattice import NAMED
+    from mc.oracle import css_color
+
+    for k, v in c3._COLOR_KEYWORDS.items():
+        if k in ("currentcolor", "transparent"):
+            continue
+        if tuple(round(x * 255) for x in (v.red, v.green, v.blue)) != NAMED.get(k):
+            fail("keyword table disagrees with tinycss2 on %s" % k)
+    if NAMED.get("rebeccapurple") != (102, 51, 153) or len(NAMED) != 148:
+        fail("keyword table: rebeccapurple / size")
+    n = 0
+    strs = []
+    for h in range(-720, 721, 45):
+        for s in (0, 15, 50, 100):
+            for l in (0, 10, 50, 85, 100):
+                strs.append("hsl(%d, %d%%, %d%%)" % (h, s, l))
+                strs.append("hsla(%d, %d%%, %d%%, 0.25)" % (h, s, l))
+    for r in (0, 1, 127, 128, 254, 255):
+        for p in ("0%", "12.5%", "50%", "99.9%", "100%"):
+            strs.append("rgb(%d, %d, %d)" % (r, 255 - r, 7))
+            strs.append("rgb(%s, 0%%, 100%%)" % p)
+            strs.append("rgba(%d, 0, 0, .5)" % r)
+    strs += ["#abc", "#A1b2C3", "red", "DarkSlateGray", " rgb( 1 , 2 , 3 ) "]
+    for s in strs:
+        mine = css_color.parse(s)
+        ref = c3.parse_color(s)
+        if mine is None or ref is None:
+            fail("css_color: %r parsed as %r / tinycss2 %r" % (s, mine, ref))
+            continue
+        n += 1
+        for a, b in zip(mine[:3], (ref.red, ref.green, ref.blue)):
+            if abs(float(a) / 255.0 - b) > 1e-9:
+                fail("css_color: %r -> %r, tinycss2 %r" % (s, [float(x) for x in mine], tuple(ref)))
+                break
+        if abs(float(mine[3]) - ref.alpha) > 1e-9:
+            fail("css_color: alpha of %r" % s)
+    for bad in ("rgb(1,2)", "rgb(1,2,3,4)", "hsl(1,2,3)", "#12", "#12345", "rgb(1%,2,3)", "nope", "rgb(1 2 3)"):
+        if css_color.parse(bad) is not None:
+            fail("css_color accepts %r" % bad)
+    return n
+
+
+def st_lab(fail):
+    from mc.oracle import cielab, ciede2000, oklab
+
+    L, a, b = cielab.rgb_to_lab((255, 255, 255))
+    if abs(L - 100) > 1e-9 or abs(a) > 1e-9 or abs(b) > 1e-9:
+        fail("cielab: white is not (100,0,0)")
+    for rgb, want in (((255, 0, 0), (53.2408, 80.0925, 67.2032)), ((0, 255, 0), (87.7347, -86.1827, 83.1793)), ((0, 0, 255), (32.2970, 79.1875, -107.8602))):
+        got = cielab.rgb_to_lab(rgb)
+        if any(abs(g - w) > 2e-3 for g, w in zip(got, want)):
+            fail("cielab: %s -> %s, published %s" % (rgb, got, want))
+    rows = json.load(open(os.path.join(HOME, "mc", "oracle", "sharma34.json")))
+    for i, r in enumerate(rows):
+        d = ciede2000.delta_e_lab(r[0:3], r[3:6])
+        d2 = ciede2000.delta_e_lab(r[3:6], r[0:3])
+        if abs(d - r[6]) > 1e-4 or abs(d2 - r[6]) > 1e-4:
+            fail("ciede2000: Sharma pair %d gives %.5f, published %.4f" % (i + 1, d, r[6]))
+    L, C, H = oklab.rgb_to_oklch((255, 255, 255))
+    if abs(L - 1) > 1e-7 or C > 1e-6:
+        fail("oklab: white")
+    for rgb, want in (((255, 0, 0), (0.628, 0.2577, 29.23)), ((0, 255, 0), (0.8664, 0.2948, 142.5)), ((0, 0, 255), (0.452, 0.3132, 264.05))):
+        got = oklab.rgb_to_oklch(rgb)
+        if abs(got[0] - want[0]) > 6e-4 or abs(got[1] - want[1]) > 6e-4 or abs(got[2] - want[2]) > 0.06:
+            fail("oklab: %s -> %s, CSS Color 4 quotes %s" % (rgb, got, want))
+    for rgb in ((0, 0, 0), (255, 255, 255), (18, 52, 86), (200, 16, 46), (1, 255, 2)):
+        if oklab.oklch_to_rgb(oklab.rgb_to_oklch(rgb)) != rgb:
+            fail("oklab: round trip of %s" % (rgb,))
+
+
+def st_tokens(fail):
+    import tinycss2
+    from mc.cli import sheetgen as G
+    from mc.oracle import css_tokens as T
+    from mc.props import c09
+
+    n = 0
+    texts = list(c09.PT.values())
+    for k in list(G.KINDS):
+        texts.append(G.Sheet([(k, "none")]).text)
+        if k not in ("root_literal", "html_literal"):
+            texts.append(G.Sheet([(k, "media_supports")]).text)
+    for x in texts:
+        y = tinycss2.serialize(tinycss2.parse_stylesheet(x, skip_whitespace=False, skip_comments=False))
+        if T.tree(x) != T.tree(y):
+            fail("css_tokens: tree of %r differs after a tinycss2 parse/serialise round trip" % x[:60])
+        n += 1
+    # token-level agreement with tinycss2 on tricky snippets
+    for s, want in (("a{b:U+0025-00FF}", ("urange", (0x25, 0xFF))), ("a{b:u+4??}", ("urange", (0x400, 0x4FF))), ("#x\\31 23{}", ("hash", "x123")),
+                    (".a\\:b{}", ("ident", "a:b")), ("a{b:url( 'q' )}", ("function", "url")), ("a{b:2.5e1px}", ("dimension", (25.0, "px")))):
+        if want not in T.tokenize(s):
+            fail("css_tokens: %r should contain %r, got %r" % (s, want, T.tokenize(s)))
+    return n
+
+
+def st_evidence(fail):
+    """Validate whatever evidence files exist against the schema with the tooling venv's jsonschema (if present)."""
+    schema = "/root/.vp/EVIDENCE.schema.json"
+    py = "/opt/veriftools/pyvenv/bin/python"
+    ev = os.path.join(HOME, "evidence")
+    if not (os.path.exists(schema) and os.path.exists(py) and os.path.isdir(ev)):
+        return 0
+    files = [os.path.join(ev, f) for f in sorted(os.listdir(ev)) if f.endswith(".json")]
+    if not files:
+        return 0
+    code = ("import json,sys,jsonschema\ns=json.load(open(%r))\nbad=0\nfor f in sys.argv[1:]:\n try:\n  jsonschema.validate(json.load(open(f)),s)\n"
+            " except Exception as e:\n  bad+=1;print('EVIDENCE-INVALID',f,str(e)[:200])\nsys.exit(1 if bad else 0)\n" % schema)
+    r = subprocess.run([py, "-c", code] + files, capture_output=True, text=True)
+    if r.returncode != 0:
+        fail("evidence schema: " + r.stdout[-400:] + r.stderr[-200:])
+    return len(files)
 
 
 def main():
     failures = []
-    from mc.oracle import wcag
-
-    def expect(name, cond, detail=""):
-        if not cond:
-            failures.append("%s %s" % (name, detail))
-
-    # WCAG worked values
-    expect("wcag #767676/white", abs(wcag.ratio((0x76,) * 3, (255,) * 3) - 4.5422) < 1e-3)
-    expect("wcag black/white", abs(wcag.ratio((0, 0, 0), (255, 255, 255)) - 21.0) < 1e-12)
-    expect("wcag #777/white < 4.5", wcag.ratio((0x77,) * 3, (255,) * 3) < 4.5)
-    for mod in ("st_css_color", "st_oklab", "st_cielab", "st_tokens"):
-        fn = globals().get(mod)
-        if fn:
-            failures.extend(fn())
+    fail = failures.append
+    st_wcag(fail)
+    n1 = st_css_color(fail)
+    st_lab(fail)
+    n2 = st_tokens(fail)
+    n3 = st_evidence(fail)
     if failures:
-        for f in failures:
+        for f in failures[:40]:
             print("SELFTEST-FAIL:", f, file=sys.stderr)
         return 2
-    print("selftest ok")
+    print("selftest ok: %d colour strings vs tinycss2.color3, 34 Sharma pairs, %d stylesheets round-tripped, %d evidence files valid" % (n1, n2, n3))
     return 0
